@@ -15,6 +15,7 @@ EXPLANATION = (
     "to their source; for Constant the hash key must be a function of the equality key; H4 the functor projection compared by Term.__eq__ is the "
     "projection unification compares (engine_unify.unify_value uses `signature`, which strips quotes). Reflexivity/symmetry/transitivity for all "
     "values (NaN constants etc.) are value-level and not decided."
+    " Added after seed round 6: H8 a class whose equality is its printed form and whose hash is a stored field prints that field unchanged."
 )
 TECHNIQUE = "static analysis: class-hierarchy rule + key-projection extraction from __eq__/__hash__ bodies"
 LEVEL_TEXT = EXPLANATION
